@@ -262,6 +262,16 @@ X3 = {
             'into the base query, thresholds come from a UTC clock', None),
 }
 NOT3 = {
+    'C08': 'elapsed delays as quantities, timer/result races; the attempt '
+           'bound is decided only as the shape "another attempt iff '
+           'stored attempt < count" over counts 0..5, not as a count of '
+           'executions observed',
+    'C07': 'counts of executions per index and the numeric concurrency '
+           'bound as observed quantities, completion orders (the item '
+           'predicates and the index computation are decided as truth '
+           'tables / finite-domain tables)',
+    'C17': 'one execution per due time under concurrent processors; '
+           'croniter arithmetic; the one-minute margin as a clock value',
     'C01': 'termination of every run, equality of the final state/tasks/'
            'output with the language semantics beyond the decision tables '
            '(join counts above 3, graph shapes)',
